@@ -391,6 +391,16 @@ static char *replace_extn(char *tmpl, char *extn) {
   return format("%s%s", filename, extn);
 }
 
+// Replace the last suffix of a path, keeping its directory part.
+static char *replace_suffix(char *path, char *extn) {
+  char *s = strdup(path);
+  char *slash = strrchr(s, '/');
+  char *dot = strrchr(slash ? slash + 1 : s, '.');
+  if (dot)
+    *dot = '\0';
+  return format("%s%s", s, extn);
+}
+
 static void cleanup(void) {
   for (int i = 0; i < tmpfiles.len; i++)
     unlink(tmpfiles.data[i]);
@@ -536,7 +546,7 @@ static void print_dependencies(void) {
   if (opt_MF)
     path = opt_MF;
   else if (opt_MD)
-    path = replace_extn(opt_o ? opt_o : base_file, ".d");
+    path = opt_o ? replace_suffix(opt_o, ".d") : replace_extn(base_file, ".d");
   else if (opt_o)
     path = opt_o;
   else
